@@ -17,6 +17,8 @@ import (
 	"strings"
 	"time"
 
+	"golang.org/x/tools/go/ssa"
+
 	"verif/engine/gosym"
 )
 
@@ -40,6 +42,8 @@ func main() {
 		os.Exit(cmdRun(os.Args[2:]))
 	case "replay":
 		os.Exit(cmdReplay(os.Args[2:]))
+	case "selftest":
+		os.Exit(cmdSelftest(os.Args[2:]))
 	default:
 		fmt.Fprintln(os.Stderr, "unknown command", os.Args[1])
 		os.Exit(2)
@@ -423,3 +427,66 @@ func propArg(args []string) string {
 	}
 	return "_none"
 }
+
+// cmdSelftest: translator validation. The repository's own unit tests are executed THROUGH the symbolic engine (no
+// symbolic inputs: every value is concrete, time is virtual) with testify's assertions intercepted; every assertion
+// that holds natively must hold in the engine as well. A test that needs something the engine does not model
+// (sockets, httptest) is reported as skipped, not as a failure.
+func cmdSelftest(args []string) int {
+	fs := flag.NewFlagSet("selftest", flag.ExitOnError)
+	verbose := fs.Bool("v", false, "verbose")
+	only := fs.String("run", "", "only tests whose name contains this")
+	fs.Parse(args)
+	total, failed, skipped, asserts := 0, 0, 0, 0
+	t0 := time.Now()
+	for _, hd := range []string{"root", "worker"} {
+		cfg := gosym.LoadConfig{RepoDir: repoDir, PkgDir: pkgDirOf(hd), Tests: true}
+		p, err := gosym.Load(cfg)
+		if err != nil {
+			fmt.Fprintln(os.Stderr, "selftest: load:", err)
+			return 2
+		}
+		entries := p.TestFuncs()
+		var sel []*ssa.Function
+		for _, e := range entries {
+			if flaky[e.Name()] || (*only != "" && !strings.Contains(e.Name(), *only)) {
+				continue
+			}
+			sel = append(sel, e)
+		}
+		ec := gosym.ExploreConfig{Workers: runtime.NumCPU(), MaxPaths: 4, TimeoutMs: 20000}
+		ec.Opt = gosym.Options{MaxSteps: 20000000, LoopBound: 200000, DelayBound: 0, MapOrders: 2, Concrete: true}
+		sums, _ := gosym.Explore(p, sel, ec)
+		for _, s := range sums {
+			total++
+			na := 0
+			for _, v := range s.Asserts {
+				na += v
+			}
+			asserts += na
+			switch {
+			case len(s.Problems) > 0:
+				skipped++
+				fmt.Printf("SKIP  %-45s %s\n", s.Name, firstLine(s.Problems[0]))
+			case len(s.Violations) > 0:
+				failed++
+				for _, l := range gosym.SortedLabels(s.Violations) {
+					v := s.Violations[l]
+					fmt.Printf("FAIL  %-45s %s at %s %s\n", s.Name, l, v.Pos, v.Msg)
+				}
+			default:
+				if *verbose {
+					fmt.Printf("ok    %-45s %d assertions agree\n", s.Name, na)
+				}
+			}
+		}
+	}
+	fmt.Printf("selftest: %d tests through the engine, %d assertions agree with the native expectations, %d failed, %d skipped (unmodelled environment), %.1fs\n", total, asserts, failed, skipped, time.Since(t0).Seconds())
+	if failed > 0 {
+		return 2
+	}
+	return 0
+}
+
+// tests the baseline itself lists as flaky / always failing
+var flaky = map[string]bool{"TestNewBufferedChannelQueue": true, "TestLinkedListQueue": true, "TestWorkerJamDuration": true}
